@@ -10,27 +10,32 @@ import math
 from lib.core import zlit, natlit
 
 MANIFEST = {
-    'text': 'Coq theorems over a Gallina model of every stub in mpyc/gmpy.py (all integers, unbounded): gcdext never '
-            'runs out of fuel and returns g = gcd(a,b) = a*s + b*t; invert returns 0 <= y < |m| with x*y = 1 mod |m| '
-            'exactly when gcd(x,m) = 1 and m != 0, else ZeroDivisionError; powmod = x^y mod m; isqrt/is_square/iroot '
-            'meet r^n <= x < (r+1)^n and exactness; jacobi terminates, is in {-1,0,1}, is 0 iff gcd != 1, depends on '
-            'x mod y only, and equals Euler\'s criterion for every odd prime y < 400 (by computation, bound in the '
-            'statement); kronecker reduces to jacobi for odd y > 0; is_prime: prime x -> True for ALL tapes and all '
-            'round counts (Fermat + square roots of 1), hence False -> composite; next_prime/prev_prime return the '
-            'nearest prime relative to a correct primality oracle; factor_prime_power/ratrec soundness. The model is '
-            'compared exactly with the stubs (results, exceptions, number of random draws) on exhaustive ranges and '
-            'random large inputs on every run, and the stubs are checked against brute-force definitions.',
-    'note': 'Trusted: Coq kernel + vm_compute; model Gmpy.v tied to gmpy.py by the exact comparison of this check; '
-            'built-ins pow/math.isqrt/math.gcd/bit_length/&,|,>> are modelled by pow3 (square-and-multiply, proved equal to '
-            'Z.pow mod)/Z.sqrt/Z.gcd/Z.log2/Z.land.. and compared through the stubs that use them; random.randint is a tape. '
-            'NOT proved (absent from props/C25.v): the GMP normalisation bounds of gcdext beyond |a|,|b| <= 40 (bounded '
-            'theorem by computation; checked by oracle on the implementation for larger ranges); jacobi = Jacobi symbol '
-            'in general (needs quadratic reciprocity; only Euler criterion below the stated bound); "is_prime True -> prime" is '
-            'probabilistic in the tape (only the bounded statement: for odd composite x < 2^11 at most 1/4 of the bases '
-            'pass a round); completeness of factor_prime_power (raises only if not a prime power) and of ratrec '
-            '(raises only if no solution) are checked by brute-force oracle only; next/prev_prime search fuel is an '
-            'explicit parameter (no prime-gap bound is provable here). Oracle for >64-bit primality is an independent '
-            'Miller-Rabin with 40 fixed prime bases (probabilistic).',
+    'text': 'Coq theorems (29, all closed under the global context) over a Gallina model of every stub in mpyc/gmpy.py, for all '
+            'integers: gcdext terminates and returns g = gcd(a,b) = a*s + b*t; invert returns 0 <= y < |m| (0 < y if |m| > 1) with '
+            'x*y = 1 mod |m| exactly when gcd(x,m) = 1 and m != 0, else ZeroDivisionError; powmod = x^y mod m (y >= 0); '
+            'isqrt/is_square/iroot: r^n <= x < (r+1)^n and exactness flag, is_square true iff a square; jacobi: ValueError '
+            'exactly off-domain, terminates, value in {-1,0,1}, 0 iff gcd != 1, depends on x mod y only, equals Euler\'s criterion '
+            'for every odd prime y < 400 (by computation, bound in the statement); kronecker = jacobi for odd y > 0; is_prime: '
+            'prime x -> True for ALL tapes and round counts (Fermat\'s little theorem and square roots of 1 proved here), hence '
+            'False -> composite; next_prime/prev_prime return the nearest prime relative to a correct primality oracle (and, '
+            'without that assumption, an accepted candidate with all skipped ones rejected); factor_prime_power and ratrec '
+            'soundness, domain errors and termination. The model is compared exactly with the stubs (results, exception '
+            'class, number of random draws on a shared randint tape) on exhaustive ranges and random 64..512-bit inputs on '
+            'every run, and the stubs are checked against brute-force definitions.',
+    'note': 'Trusted: Coq kernel + vm_compute; model Gmpy.v tied to gmpy.py by the exact comparison of this check; built-ins '
+            'pow/math.isqrt/math.gcd/bit_length/&,|,>> are modelled by pow3 (square-and-multiply, proved = Z.pow mod)/Z.sqrt/'
+            'Z.gcd/Z.log2/Z.land.. and compared through the stubs that use them; random.randint is a tape. PARTIAL / NOT '
+            'proved: the GMP normalisation bounds of gcdext only for |a|,|b| <= 64 (by computation; oracle-checked on the '
+            'implementation for larger and random 512-bit arguments); jacobi = Jacobi symbol in general (needs quadratic '
+            'reciprocity; only the facts above + Euler criterion below 400; oracle by factorisation on the implementation); '
+            '"is_prime True -> prime" is probabilistic in the tape: only bounded statements (every trial-division survivor '
+            'below 1024 is prime; for odd composites below 4096 at most 1/4 of the bases pass a round); completeness of '
+            'factor_prime_power (raises only if not a prime power) and of ratrec (raises only if no solution) are checked by '
+            'brute-force oracle only; kronecker for even/negative y only by oracle + correspondence; powmod with negative '
+            'exponent only by correspondence; next/prev_prime search fuel is an explicit parameter (no prime-gap bound). '
+            'Oracle for >20-bit primality is an independent Miller-Rabin with 40 fixed prime bases. Known finding F-C25-1: '
+            'iroot returns a value for negative x instead of raising. Observation: is_square raises ValueError for negative x '
+            'with x mod 16 in {0,1,4,9} and returns False for the other negatives (gmpy2 returns False).',
     'technique': 'Coq proofs (Euclid invariants, Fermat little theorem by permutation, bit-loop invariants) + vm_compute '
                  'correspondence on shared randint tapes + brute-force oracles',
 }
@@ -234,7 +239,7 @@ def run(ctx):
     seed = rng.randrange(1, 10 ** 6)
     B = ctx.n(60, 160)          # binary grid [-B, B]^2
     U = ctx.n(4000, 40000)      # unary range [-50, U]
-    NR = ctx.n(40, 300)         # random large cases per function
+    NR = ctx.n(30, 300)         # random large cases per function
     ctx.rule = ('case = (function, arguments, randint tape); exhaustive grids [-%d,%d]^2 (binary) and [-50,%d] (unary), '
                 'plus structured/random 64..512-bit arguments; non-trivial = does not take the first early-return of the '
                 'function (e.g. gcdext with b != 0, is_prime reaching Miller-Rabin or a small-prime hit, invert with |m| > 1)'
@@ -242,7 +247,14 @@ def run(ctx):
     ctx.explanation = ('theorems over the Gallina model for all integers; model == stubs exactly (value, exception class, '
                        'number of randint draws) on every generated case; stubs checked against brute-force definitions')
     ctx.extra['exhaustive'] = True
-    viol = ctx.violation
+    vcount = {}
+
+    def viol(sig, detail):
+        """Forward at most 5 violations per failing class (first word of sig) to the harness (one replay file each)."""
+        key = sig.split(' ')[0]
+        vcount[key] = vcount.get(key, 0) + 1
+        if vcount[key] <= 5:
+            ctx.violation(sig, detail)
     exprs, expect = [], []      # Coq expression -> expected parsed value (list-shaped)
 
     def big(bits=None):
@@ -653,7 +665,7 @@ def run(ctx):
     add_list('map (run_prev_prime 3000 %s %s) @' % (zlit(MB), zlit(seed)), [zlit(x) for x in big_np], rp, 2)
 
     # ---------------- factor_prime_power
-    FU = ctx.n(1200, 6000)
+    FU = ctx.n(1062, 6000)
     rs = []
     for x in range(-5, FU + 1):
         gmpy.random = T = TapeRandom(fn=tapefn(x, MS))
@@ -666,7 +678,7 @@ def run(ctx):
     add_range('map (run_fpp 100 %s %s) @' % (zlit(MS), zlit(seed)), -5, rs, ctx.n(12, 60))
     cases = []
     maxbits = ctx.n(420, 1400)
-    for _ in range(ctx.n(24, 160)):
+    for _ in range(ctx.n(16, 160)):
         p = rng.choice([gen_prime(rng.choice([11, 12, 16, 20, 33, 64, 100])), rng.choice([1021, 1031, 1033, 2, 3, 1019])])
         d = rng.choice([1, 2, 3, 4, 5, 6, 7, 8, 9, 12, 15, 16, 25, 27, 30])
         if p.bit_length() * d > maxbits:
